@@ -128,10 +128,10 @@ func runCHSite(r *Run, s *chSite) {
 	}
 	tag := pickTag(fn, T, cv)
 	var inline func(*ssa.Function, int) bool
+	var h *ssa.Function
 	if tag == nil {
 		// the dispatch may have been extracted into a helper: follow exactly the call chain to it
 		grp := funcGroup(fn)
-		var h *ssa.Function
 		for _, gf := range grp[1:] {
 			if t := pickTag(gf, T, cv); t != nil && h == nil {
 				h, tag = gf, t
@@ -196,6 +196,10 @@ func runCHSite(r *Run, s *chSite) {
 	extra := map[ssa.Value]constant.Value{}
 	for _, pin := range s.Pin {
 		t2 := pickTag(fn, T, consts[pin[0]])
+		if (t2 == nil || t2 == tag) && h != nil {
+			// the pinned dispatch moved into the helper together with the main one
+			t2 = pickTag(h, T, consts[pin[0]])
+		}
 		if t2 == nil || t2 == tag {
 			r.Ob(s.Rule, shortRel(s.Rel)+"."+s.fnName(), s.Claim).Undecide(r.pos(fn.Pos()), "no second dispatch value compared with %s found", pin[0])
 			return
@@ -757,6 +761,56 @@ func ruleCHParseSites3(r *Run) {
 	lead := pickTag(fn, T, consts["OpenParen"])
 	opTag := pickTag(fn, T, consts["CmpEq"])
 	litTag := pickTag(fn, T, consts["String"])
+	if lead == nil || opTag == nil || litTag == nil {
+		// the filter arm may have been split off: the helper that holds all three dispatches
+		for _, gf := range funcGroup(fn)[1:] {
+			l2, o2, t2 := pickTag(gf, T, consts["OpenParen"]), pickTag(gf, T, consts["CmpEq"]), pickTag(gf, T, consts["String"])
+			if l2 != nil && o2 != nil && t2 != nil {
+				fn, lead, opTag, litTag = gf, l2, o2, t2
+				break
+			}
+		}
+	}
+	// helpers that are handed the operator token (or its type) take part in the admissibility decision
+	opHelpers := map[*ssa.Function]bool{}
+	if opTag != nil {
+		var opBase ssa.Value
+		switch x := opTag.(type) {
+		case *ssa.Field:
+			opBase = x.X
+		case *ssa.UnOp:
+			if fa, ok := x.X.(*ssa.FieldAddr); ok {
+				opBase = fa.X
+			}
+		}
+		for _, c := range callsIn(fn) {
+			callee := staticCallee(c)
+			if callee == nil || callee.Blocks == nil || len(callee.Blocks) > 16 || pkgOfFunc(callee) != pkgOfFunc(fn) || callee == fn {
+				continue
+			}
+			for _, a := range c.Common().Args {
+				given := a == opTag
+				if u, ok := a.(*ssa.UnOp); ok && opBase != nil && u.X == opBase {
+					given = true
+				}
+				if opBase != nil && a == opBase {
+					given = true
+				}
+				for _, t := range equivLoads(fn, opTag) {
+					if a == t {
+						given = true
+					}
+				}
+				if given {
+					opHelpers[callee] = true
+				}
+			}
+		}
+	}
+	var opInline func(*ssa.Function, int) bool
+	if len(opHelpers) > 0 {
+		opInline = func(callee *ssa.Function, depth int) bool { return opHelpers[callee] && depth <= 1 }
+	}
 	if lead == nil || opTag == nil || litTag == nil || opTag == litTag {
 		r.Ob("CH-MAP", "logql.(*parser).parseLabelPredicate literal kinds", "operator/literal admissibility").Undecide(r.pos(fn.Pos()), "dispatch values not identified")
 		return
@@ -780,7 +834,7 @@ func ruleCHParseSites3(r *Run) {
 					assume[t] = consts[cn]
 				}
 			}
-			w := &feWalker{Fn: fn, Assume: assume, MaxPath: 20000}
+			w := &feWalker{Fn: fn, Assume: assume, MaxPath: 20000, Inline: opInline}
 			built := map[string]bool{}
 			succ := false
 			for _, e := range w.Run() {
